@@ -21,6 +21,24 @@ Fixpoint pure_lit (e : expr) : bool :=
   | EBin _ l r => pure_lit l && pure_lit r
   | _ => false
   end.
+(* the n slots from b on are declared with the integer kind k (the elements of one array) *)
+Definition arr_ok (G : list ty) (b n : nat) (k : ikind) : bool :=
+  Nat.ltb 0 n && forallb (fun j => match nth_error G (b + j) with Some (TInt k') => ik_eqb k k' | _ => false end) (seq 0 n).
+Fixpoint has_var (e : expr) : bool :=
+  match e with
+  | ELit _ _ => false
+  | EVar _ => true
+  | EUn _ e1 => has_var e1
+  | EBin _ l r => has_var l || has_var r
+  | EIdx _ _ _ _ _ => true
+  end.
+(* the checker folds constant indices (eval_const_int_expr) and rejects one outside the bounds: T accepts a literal index only
+   inside the bounds, and no other variable-free index *)
+Definition idx_static_ok (lo : Z) (n : nat) (i : expr) : bool :=
+  match i with
+  | ELit _ (VInt _ z) => (lo <=? z) && (z <=? lo + Z.of_nat n - 1)
+  | _ => has_var i
+  end.
 Definition is_arith (op : binop) : bool := match op with BAdd | BSub | BMul | BDiv | BMod => true | _ => false end.
 
 (* integer expression of kind k. [strict] = no untyped literals: every literal carries its type, so
@@ -36,6 +54,8 @@ Fixpoint tint (strict : bool) (G : env) (k : ikind) (e : expr) : bool :=
   | EBin op l r =>
       is_arith op && tint strict G k l && tint strict G k r &&
       (is_signed k || negb (pure_lit l && pure_lit r))
+  (* the index has a declared integer kind other than ULINT (index_to_i64 wraps a ULINT above i64::MAX) *)
+  | EIdx b lo n ki i => arr_ok G b n k && negb (ik_eqb ki KULInt) && idx_static_ok lo n i && tint strict G ki i
   end.
 (* the kinds an expression may be checked against *)
 Definition kinds : list ikind := [KSInt; KInt; KDInt; KLInt; KUSInt; KUInt; KUDInt; KULInt].
@@ -52,6 +72,7 @@ Fixpoint tbool (strict : bool) (G : env) (e : expr) : bool :=
       else if is_cmp op then
         existsb (fun k => tint strict G k l && tint strict G k r && (is_signed k || negb (pure_lit l && pure_lit r))) kinds
       else false
+  | EIdx _ _ _ _ _ => false
   end.
 
 Definition var_kind (G : env) (x : nat) : option ikind :=
@@ -65,6 +86,11 @@ Fixpoint tstmt (strict : bool) (G : env) (in_loop : bool) (st : stmt) {struct st
       match nth_error G x with
       | Some TBool => tbool strict G e
       | Some (TInt k) => tint strict G k e
+      | None => false
+      end
+  | SAssignIdx b lo n ki i e =>
+      match var_kind G b with
+      | Some k => arr_ok G b n k && negb (ik_eqb ki KULInt) && idx_static_ok lo n i && tint strict G ki i && tint strict G k e
       | None => false
       end
   | SIf c t elifs el =>
